@@ -11,6 +11,36 @@ LEVEL_NOTE = ("Trusted base: CBMC 6.11.0 (C front end, symbolic execution, bit-b
               "small is reported as inconclusive (exit 2), never as success.")
 
 CHECKS = {
+    "C02": ("Bounded model checking of every integer-array codec's real encoder followed by its real decoder(s), random-access and "
+            "block readers on n <= 4 jointly symbolic full-width elements, split into exhaustive width classes; the decoder is fed the "
+            "reported bytes followed by unrelated symbolic junk. BP128 additionally at a scaled block size (hook) to cross the "
+            "full/partial block transitions.", "3 C02"),
+    "C03": ("Bounded model checking of encoder output size against the matching sizing function: destination object of exactly the "
+            "advertised size (CBMC bounds check) or symbolic prior contents that must survive at and beyond the advertised size; "
+            "returned length <= (== where documented exact) the advertised size.", "3 C03"),
+    "C06": ("Bounded model checking of the adaptive codec decomposed along varintAdaptiveEncode's body: selection-vs-domain over "
+            "arbitrary statistics (no array bound), Analyze truthfulness, forced and automatically selected encodings round trip with "
+            "header byte == reported type, n <= 3.", "3 C06"),
+    "C08": ("Bounded model checking of the bitmap as one inductive step from every well-formed container shape (scaled constants via the "
+            "hook, plus real constants on small shapes): abstract set equality, truthful return values, operands unchanged, "
+            "well-formedness preserved; loops over other public operations verified modularly against contracts that the one-step "
+            "queries prove (goto-instrument --replace-calls).", "3 C08"),
+    "C13": ("Bounded model checking of every capacity-taking decoder on valid encodings of n symbolic elements with an output object of "
+            "exactly cap < n elements (a write past capacity is a bounds failure); result 0 or a correct prefix as documented.", "3 C13"),
+    "C14": ("Bounded model checking of every length-taking decoder on an input object of exactly L bytes with arbitrary symbolic "
+            "contents (L = 0..12, Elias 0..3): no access at or beyond L, termination via unwinding assertions, bounded allocation, "
+            "output capacity respected, truncated tagged varint => 0; valid encodings still decode.", "3 C14"),
+    "C15": ("Self-composition in CBMC: each entry point executed twice on equal arguments with independent symbolic residue in output "
+            "buffers, metadata structs, uninitialised locals and fresh heap objects; outputs must be equal. Plus an audit of the goto "
+            "symbol table: no mutable static-lifetime object.", "3 C15"),
+    "C16": ("Bounded model checking of metadata outputs and header accessors against ground truth computed by the harness from the "
+            "symbolic input and the encoder's return value (same arrays as C02).", "3 C16"),
+    "C17": ("CBMC's multi-threaded semantics: two threads, all interleavings, on the scalar families, packed arrays and bitstreams over "
+            "disjoint outputs and shared inputs, results equal to the sequential ones; plus a symbol-table audit of all units (no "
+            "mutable static state, no synchronisation primitives) that carries the claim to the array codecs and more threads.", "3 C17"),
+    "C18": ("Bounded model checking with allocation-failure injection: the k-th allocation of each allocating call fails for a symbolic "
+            "k covering every position (an assertion bounds the number of allocations): no memory error, no leak, failure value or a "
+            "fully correct result, long-lived objects usable afterwards.", "3 C18"),
     "C01": ("Bounded symbolic model checking of the real scalar encoders/decoders (functions and macros) with CBMC: every harness "
             "quantifies over all 2^64 values, all legal widths, prior buffer contents and two alignments, in both NDEBUG "
             "configurations; for these loop-free-after-unwinding functions the bound is the machine width itself.", "3 C01"),
